@@ -148,6 +148,10 @@ func (hs *serverHandshakeState) readClientHello() (isResume bool, err error) {
 	}
 
 	c.vers, ok = c.config.mutualVersion(hs.clientHello.vers)
+	if ok && c.vers < VersionSSL30 {
+		// the configured minimum is the GMSSL number (0x0101); nothing below SSL 3.0 is a TLS version
+		ok = false
+	}
 	if !ok {
 		c.sendAlert(alertProtocolVersion)
 		return false, fmt.Errorf("tls: client offered an unsupported, maximum protocol version of %x", hs.clientHello.vers)
